@@ -503,7 +503,7 @@ Abs == INSTANCE LabRunAbs WITH
   intCount <- intCount, outKeys <- outKeys, outVals <- outVals,
   lateStart <- FALSE, idlePolls <- 0,
   cachedNow <- cached,
-  cacheVals <- store,
+  cacheVals <- [t \in Tasks |-> IF t \in cached THEN LoadVal(t) ELSE <<>>],    \* entries cached beforehand hold their epoch-0 value
   obsCache <- (pc \in {"returned", "raised"}),
   envok <- {},
   marks <- {}, emitted <- lg.emit, delivered <- lg.del, obsLogs <- (Logs /\ pc \in {"returned", "raised"})
